@@ -181,7 +181,7 @@ def r_entry(F, cfg):
             calls = list(b.calls())
             hcalls = [(bi, t) for bi, t in calls if (F.callee_of(t) or {}).get("id") in helpers]
             if not hcalls:
-                if _butterfly1_exception(F, b, imp):
+                if _butterfly1_exception(F, b, imp, kind):
                     exceptions += 1
                     R.ok({"entry": key, "verdict": "exception: length-1 transform, safe code, copy_from_slice checks lengths"}, nontrivial=True)
                 else:
@@ -217,9 +217,30 @@ def r_entry(F, cfg):
     return R
 
 
-def _butterfly1_exception(F, b, imp):
+def _butterfly1_exception(F, b, imp, kind="inplace"):
     """Named exception: a transform whose Length::len is the constant 1 and whose entry body is
-    safe code (no unsafe callee, no raw pointer deref)."""
+    safe code (no unsafe callee, no raw pointer deref). Length 1 admits no remainder and needs no
+    scratch, so the only ill shape left is input.len() != output.len(): the two-buffer entry points
+    must therefore contain an operation that panics on unequal lengths -- `output.copy_from_slice(input)`
+    on the method's own parameters, or a comparison of the two lengths guarding a panic."""
+    if kind in ("immut", "outofplace"):
+        checked = False
+        for bi, t in b.calls():
+            c = F.callee_of(t)
+            if c and c["p"].endswith("<impl [T]>::copy_from_slice") and len(t["args"]) == 2:
+                if b.root(t["args"][0]) == ("param", 3) and b.root(t["args"][1]) == ("param", 2):
+                    checked = True
+        if not checked:
+            for x in range(len(b.blocks)):
+                for (tgt, op, lhs, rhs, truth) in _switch_edges(F, b, x, []):
+                    rel = _norm(op, lhs, rhs, truth)
+                    if _holds(rel, "Eq", ("len", 2), ("len", 3)):
+                        others = [e for e in _switch_edges(F, b, x, []) if e[0] != tgt]
+                        from .tables import region_panics
+                        if others and region_panics(F, b, others[0][0]):
+                            checked = True
+        if not checked:
+            return False
     lb = None
     for i in F.impls:
         if i.get("trait") == "Length" and i["self_ty"] == imp["self_ty"]:
